@@ -116,15 +116,15 @@ func init() {
 		NotDecided: "per-second accounting; signal handling outcome; every-combination behaviour as values.",
 	})
 	registerProperty(&Property{ID: "C20", DesignRef: "DESIGN.md §4 C20, §3.3",
-		Rules:      []string{"TS-CLEANUP", "TS-LRU-TOUCH", "TS-PRUNE-TRIGGER", "TS-LOWWATER", "TS-EXPIRE-ATOMIC", "LK-GUARD-CACHE", "LK-PAIR-CACHE"},
+		Rules:      []string{"TS-CLEANUP", "TS-LRU-TOUCH", "TS-PRUNE-TRIGGER", "TS-LOWWATER", "TS-EXPIRE-ATOMIC", "TS-AGE-CUTOFF", "LK-GUARD-CACHE", "LK-PAIR-CACHE"},
 		Technique:  techPath + "; lockset on the cache's fields",
 		Decided:    "at each of the four removal sites an entry is removed only after its cleanup ran with that key and returned nil (or no cleanup is configured / the entry is absent); entries, per-entry time and timer are only touched under the cache mutex; the cache mutex is released on every exit; every lookup of a found entry refreshes its last-use time and every insertion initialises it (the structural half of ‘least recently used’).",
 		NotDecided: "LRU order, expiry timing, prune-back-to-limit (value-level); what happens to the old value when Set overwrites a key.",
 	})
 	registerProperty(&Property{ID: "C18", DesignRef: "DESIGN.md §4 C18",
-		Rules:      []string{"SH-INDEX-SCAN", "SH-SWAP-REMOVE#index", "TS-TAGKEEP", "TS-GETDESC", "TB-DEEP"},
+		Rules:      []string{"SH-INDEX-SCAN", "SH-SWAP-REMOVE#index", "TS-TAGKEEP", "TS-GETDESC", "TB-DEEP", "TS-INDEX-SCOPE", "TS-INDEX-REUSE"},
 		Technique:  "loop-shape rules on go/ssa (range coverage of every scan of the entry lists, re-examination after swap-removal), path-sensitive typestate on the index's editing methods, field-exhaustive deep-copy check on the typed AST",
-		Decided:    "the structural conditions without which the index cannot keep its invariants for every sequence: every loop of the index type that scans an entry list examines the whole list (no first/last entry exempt from tag uniqueness, single referrers response, removal of every reference, lookup); a loop that removes by moving the last entry into the slot examines that slot again; an entry is dropped or overwritten only after its own annotations were looked at, or on the ‘no tag requested’ edge of a removal by digest, which removes every entry of the digest; lookup by tag returns the annotated entry and lookup by digest searches both the top-level and the child list and returns a bare descriptor; Copy re-allocates every reference field of index and descriptor.",
-		NotDecided: "the contents of the index as a value after a given sequence (which entry wins a replacement, order, what AddDesc does to an entry that is compatible in one annotation and not the other); at-most-once listing of untagged digests; that GetByAnnotation's answer is the last insertion.",
+		Decided:    "the structural conditions without which the index cannot keep its invariants for every sequence: every loop of the index type that scans an entry list examines the whole list (no first/last entry exempt from tag uniqueness, single referrers response, removal of every reference, lookup); a loop that removes by moving the last entry into the slot examines that slot again; an entry is dropped or overwritten only after its own annotations were looked at, or on the ‘no tag requested’ edge of a removal by digest, which removes every entry of the digest; lookup by tag returns the annotated entry and lookup by digest searches both the top-level and the child list and returns a bare descriptor; Copy re-allocates every reference field of index and descriptor; a removal that names a digest deletes entries of that digest only (or, without a digest, by tag or subject); children are recorded without consulting the top-level list; an insert with a tag reuses a same-digest entry whose annotations are empty but not nil (branch conditions evaluated under that scenario).",
+		NotDecided: "the contents of the index as a value after a given sequence (which entry wins a replacement in scenarios other than the evaluated one, order, what AddDesc does to an entry that is compatible in one annotation and not the other); that GetByAnnotation's answer is the last insertion.",
 	})
 }
